@@ -130,4 +130,35 @@ def wdOfArg (w : Option WdArg) : Option (Int × Option Int) :=
 /-- a weekday object (or None) passed as the `weekday=` keyword -/
 def wdArgOfObj (w : Option (Int × Option Int)) : Option WdArg := w.map (fun p => WdArg.obj p.1 p.2)
 
+/-! ### floats that are exact: dyadic rationals
+
+`__mul__` / `__div__` compute `int(field * float(other))`.  For an `other` that is a dyadic rational `m / 2^k` (every integer,
+halves, 1.5, reciprocals of powers of two) and an integer `field` the product is the exact rational `field·m / 2^k` as long
+as `|field·m| < 2^53` (IEEE-754 double: no rounding happens), and `int()` truncates it toward zero.  Outside that range the
+float product rounds and these primitives are NOT what the code computes (the harness stays inside; C16 TRUSTED). -/
+
+/-- the float `m / 2^k` -/
+structure Dy where
+  m : Int
+  k : Nat
+  deriving DecidableEq, Repr, Inhabited
+
+/-- `field * f` (int × float) -/
+def intMulDy (a : Int) (f : Dy) : Dy := { m := a * f.m, k := f.k }
+
+/-- the quotient `a / b` truncated toward zero (`b > 0`), written with the floor division `omega` understands -/
+def tquot (a b : Int) : Int := if 0 ≤ a then a / b else -((-a) / b)
+
+/-- `int(x)` of a float: truncation toward zero -/
+def truncDy (x : Dy) : Int := tquot x.m (2 ^ x.k)
+
+/-- an `other` that is plus or minus a power of two -/
+structure Pow2 where
+  neg : Bool
+  k : Nat
+  deriving DecidableEq, Repr, Inhabited
+
+/-- `1 / float(other)`: exact for a power of two -/
+def recipPow2 (p : Pow2) : Dy := { m := if p.neg then -1 else 1, k := p.k }
+
 end RDPy
